@@ -285,7 +285,7 @@ PROPERTY_TEXT = {
 }
 
 
-def examine(ctx, cases, mlog, ilog, what_impl, stats, check_once=True):
+def examine(ctx, cases, mlog, ilog, what_impl, stats, check_once=True, extra=None):
     """compare logs + monitors; returns (first_divergence or None, number of monitor violations reported)"""
     first_div = None
     nviol = 0
@@ -319,7 +319,7 @@ def examine(ctx, cases, mlog, ilog, what_impl, stats, check_once=True):
                 if im.get(key, 0) > 0 or tb[key]:
                     nviol += 1
                     ctx.violation("%s: %s" % (what_impl, PROPERTY_TEXT[key]),
-                                  {"case": c, "monitor": key, "harness_monitor": im, "trace_monitor": {k: v[:3] for k, v in tb.items()}, "impl_log": i["lines"]})
+                                  dict({"case": c, "monitor": key, "harness_monitor": im, "trace_monitor": {k: v[:3] for k, v in tb.items()}, "impl_log": i["lines"]}, **(extra or {})))
             if check_once and im.get("not_disposed_exactly_once", 0) > 0:
                 nviol += 1
                 ctx.violation("%s: %s" % (what_impl, PROPERTY_TEXT["not_disposed_exactly_once"]),
@@ -349,6 +349,50 @@ def load_corpus(pid):
     return cases
 
 
+def run_gpb_part(ctx):
+    """general_buffered under the scheduler (atomic buffer wrapper of harness/C05), step by step against LV.Model.RcuBuf,
+    with the C04 monitors (dispose / sync_end while a pre-existing reader is inside, touch of a disposed object)."""
+    import C05
+    model = conc_check.build_model(ctx, "Extract_RcuBuf.v", tag="model_buf")
+    impl = vcheck.cxx_build(os.path.join(vcheck.VERIF, "harness/C05/main.cpp"), os.path.join(ctx.work, "harness_buf"), hook=True)
+    cov = {"cases": 0, "diverged": 0, "steps": 0, "writer_waited_logs": 0, "per_variant": {}}
+    thorough = ctx.thorough()
+    for var, cnt in (("a0", 0), ("a1", 1)):
+        what = "cds::urcu::gc<general_buffered> (real code, %s buffer executed atomically)" % ("counting" if cnt else "default non-counting")
+        wrapper = os.path.join(ctx.work, "implbuf_%s.sh" % var)
+        with open(wrapper, "w") as f:
+            f.write("#!/bin/sh\nexec %s \"$1\" %s\n" % (impl, var))
+        os.chmod(wrapper, 0o755)
+        if ctx.replay:
+            rep = json.load(open(ctx.replay))
+            if rep.get("variant") != var:
+                continue
+            cases = [rep["case"]]
+        else:
+            cases = [c for c in load_corpus("C05") if c.get("variant", "a0") == var]
+            cases += C05.gen_epoch_cases(ctx, 1600 if thorough else 500, cnt, "ge" + var)
+            cases += gen_cases(ctx, 1200 if thorough else 300, prefix="gb" + var, cfg=C05.cfg_gen(cnt), allow_batch=True)
+        st = new_stats()
+        mlog, ilog, rc2, missing = run_split(ctx, model, wrapper, cases, "G" + var, fuel=60000)
+        fd, nv = examine(ctx, cases, mlog, ilog, what, st, check_once=False, extra={"variant": var})
+        if missing is not None and nv == 0:
+            nv += 1
+            ctx.violation("%s: the harness hung or crashed (rc=%s) on a case" % (what, rc2), {"case": missing, "variant": var})
+        if fd is not None and nv == 0 and not ctx.replay:
+            more = C05.gen_epoch_cases(ctx, 4000, cnt, "se" + var) + gen_cases(ctx, 2000, prefix="sb" + var, cfg=C05.cfg_gen(cnt), allow_batch=True)
+            ml2, il2, rc3, miss2 = run_split(ctx, model, wrapper, more, "GS" + var, fuel=60000)
+            _, nv2 = examine(ctx, more, ml2, il2, what, new_stats(), check_once=False, extra={"variant": var})
+            nv += nv2
+            if nv2 == 0:
+                c, d = fd
+                ctx.violation("step correspondence between LV.Model.RcuBuf and cds/urcu/details/gpb.h no longer holds (C04, general_buffered)",
+                              {"correspondence": "Model/RcuBuf.v vs cds::urcu::gc<general_buffered<AtomicBuf<VyukovMPMCCycleQueue>,spin_lock,backoff::empty>>",
+                               "variant": var, "case": c, "first_divergence": d, "searched_cases_without_monitor_violation": len(more)}, no_input=True)
+        cov["cases"] += len(cases); cov["diverged"] += st["diverged"]; cov["steps"] += st["steps"]; cov["writer_waited_logs"] += len(st["nontrivial"])
+        cov["per_variant"][var] = {"cases": len(cases), "diverged": st["diverged"], "branch_histogram": st["branches"]}
+    return cov
+
+
 def run(ctx):
     res = vcheck.coq_build(["Properties/Properties_C04.v"])
     ctx.coq_evidence(res)
@@ -358,7 +402,7 @@ def run(ctx):
     stats = new_stats()
     if ctx.replay:
         rep = json.load(open(ctx.replay))
-        cases = [rep["case"]]
+        cases = [] if rep.get("variant") else [rep["case"]]      # a replay with a variant is a general_buffered case
         ncorpus = 0
     else:
         cases = load_corpus("C04")
@@ -381,6 +425,9 @@ def run(ctx):
             ctx.violation("step correspondence between LV.Model.RcuGp and cds/urcu/details/{gp,gpi,base}.h no longer holds",
                           {"correspondence": "Model/RcuGp.v vs cds::urcu::gc<general_instant<spin_lock,backoff::empty>>", "case": c, "first_divergence": d,
                            "searched_cases_without_monitor_violation": len(more)}, no_input=True)
+    # ---- general_buffered (theorems C04_gpb_*): the scheduled correspondence of checks/C05.py part A with the C04 monitors,
+    #      generator aimed at retire-during-synchronize and readers entering between / after the flips
+    gpb_cov = run_gpb_part(ctx)
     if ctx.thorough() and res.ok and not ctx.replay:
         rcq, outq = vcheck.coqchk("LV.Properties.Properties_C04")
         ctx.coverage["coqchk"] = "ok" if rcq == 0 else outq[-400:]
@@ -389,18 +436,19 @@ def run(ctx):
     if not res.ok:
         ctx.violation("Coq obligations of C04 do not check: %s" % (res.failed[:2],), {"theorem": [f[2] for f in res.failed], "errors": res.failed[:3]}, no_input=True)
     ctx.coverage.update({
-        "evaluations": len(cases), "distinct_nontrivial": len(stats["nontrivial"]),
+        "evaluations": len(cases) + gpb_cov["cases"], "distinct_nontrivial": len(stats["nontrivial"]) + gpb_cov["writer_waited_logs"],
         "rule": "program x schedule pairs (2-4 threads; reader/writer/mixed programs of attach, detach, rlock, runlock (nested), publish, unpublish, touch, retire, synchronize; uniform, bursty, run-then-switch and reader-stalled-while-writer-synchronizes schedules from one splitmix64 stream); distinct = distinct model event logs; non-trivial = a flip_and_wait wait loop went round at least once (the writer really waited for a reader)",
         "distinct_event_logs": len(stats["shapes"]), "impl_steps_compared": stats["steps"], "diverged": stats["diverged"], "overruns": stats["overruns"],
         "corpus_cases": ncorpus, "traces_validated_against_impl": len(cases) - stats["diverged"],
         "op_histogram": stats["ops"], "branch_histogram": stats["branches"],
+        "general_buffered": gpb_cov,
         "samples": cases[ncorpus:ncorpus + 2] if len(cases) > ncorpus else cases[:1],
         "modelled": "thread_list::alloc/retire, gp_thread_gc::access_lock/access_unlock, gp_singleton::flip_and_wait/check_grace_period, general_instant::synchronize/retire_ptr, spin_lock::lock/unlock",
-        "flavours": {"general_instant": "step correspondence + monitors (this check)", "general_buffered": "checks/C05.py (step correspondence with an atomic buffer wrapper + monitors; default Vyukov buffer: monitors only)",
+        "flavours": {"general_instant": "step correspondence + monitors (this check)", "general_buffered": "step correspondence with the atomic buffer wrapper + C04 monitors (this check, generator aimed at retire-during-synchronize; see general_buffered); exactly-once, default Vyukov buffer: checks/C05.py",
                      "general_threaded": "checks/C05.py: exploration of the real code with real threads (monitors only)", "signal_buffered": "checks/C05.py: exploration of the real code with real threads and real signals (monitors only)"},
     })
     return ctx.finish(vcheck.STD_TRUSTED + ["hook layer: khizmax_libcds_verif::atomic<T>, baton scheduler, event log (hooks/include)", "ocaml/conc_main.ml event printer",
-                                            "harness/C04/rcu_harness.h (client programs, monitors)"],
+                                            "harness/C04/rcu_harness.h (client programs, monitors)", "harness/C05/main.cpp (AtomicBuf wrapper: one scheduling point per buffer operation)"],
                       ["sequential consistency: memory_order arguments and fences are not modelled", "compare_exchange_weak never fails spuriously under the hook",
                        "the traversal of the thread-record list is modelled as a snapshot of the list at the head load (next_ is immutable after publication, records are never unlinked)",
                        "Lock = cds::sync::spin_lock<backoff::empty>, Backoff = backoff::empty (std::mutex cannot be scheduled by the baton scheduler)",
